@@ -108,6 +108,8 @@ def run(ck):
                 ck.ob("DEFUSE", clos.path, "sponsor-keys#%d" % n, ("capture", "sponsor_keys") in o,
                       "sponsor signature is checked against the sponsor keys (captured variable sponsor_keys)", clos.loc(bi))
 
+    enf_module_sweep(ck, crate("rs", CB), re.compile(r"concordium_base::(transactions|updates)::"), 1, "transactions/updates")
+
     # b. digest binding
     for name, nput in (("compute_transaction_sign_hash", 1), ("compute_transaction_sign_hash_v1", 2)):
         f = getfn(ck, "rs", CB, T + name)
